@@ -16,7 +16,7 @@ RULE = ("index dtype (8) x pattern {increasing, decreasing, constant, non-monoto
         "tolerance, range-wide} x rows {1,2,5} x window x user-supplied {none, index_min, index_max, spacing, "
         "direction, zero values} (as keywords or through the setters after creation) x index type {none, BOREHOLE-DEPTH, non-standard} given at creation / assigned afterwards / assigned after a first index-less write; histories: a write after a write that was refused inside the frame set-up; second write of the same objects "
         "with another window / other data / other dtype; expectations by exact arithmetic on Fractions; SPACING of a "
-        "nearly uniform index is the median of the differences (the documented rule); NaN-containing indexes and "
+        "nearly uniform index is the median of the differences (the documented rule); an index containing a NaN must claim neither SPACING nor DIRECTION; "
         "tolerance-threshold cases are not generated; non-trivial = file written and FRAME attributes compared")
 ASSUMPTIONS = ["strict reader mc/rp66.py", "uniformity rule = documented (1 - d/median)^2 < 0.001",
                "float patterns are chosen so that all differences are exactly representable"]
@@ -112,6 +112,11 @@ def cases(shard, tier):
                 seconds += ['window', 'data', 'dtype']
             for second in seconds:
                 yield dict(shard, n=n, frm=f, to=t, user=user, itype=it, second=second)
+            if it is not None and user == 'none' and shard['dtype'].startswith('float') and n >= 3 and (f, t) == (0, None):
+                # a NaN among the index values written: the index is not monotonic, so no DIRECTION and no SPACING may be
+                # claimed (nothing is demanded of INDEX-MIN / INDEX-MAX)
+                for pos in sorted({0, n // 2, n - 1}):
+                    yield dict(shard, n=n, frm=f, to=t, user=user, itype=it, second='none', nan_at=pos)
             if it is None and user in ('none', 'index_min'):
                 # index-less frame whose first channel holds several samples per row: INDEX-MAX counts rows, not samples
                 yield dict(shard, n=n, frm=f, to=t, user=user, itype=it, second='none', first_width=3)
@@ -221,6 +226,10 @@ def run_case(c):
     dtype, n = c['dtype'], c['n']
     vals = values(dtype, c['pattern'], n)
     arr = S.arr_spec(dtype, [n], to_pat(dtype, vals))
+    if c.get('nan_at') is not None:
+        pat_nan = list(to_pat(dtype, vals))
+        pat_nan[c['nan_at']] = 0x7FF8000000000000 if dtype == 'float64' else 0x7FC00000
+        arr = S.arr_spec(dtype, [n], pat_nan)
     fw = c.get('first_width')
     if fw:
         # every row holds fw samples (the row's index value first)
@@ -322,13 +331,18 @@ def run_case(c):
         exp = expectation(exp_dtype, exp_vals, frm, to if to is not None else len(exp_vals), c['itype'], c['user'])
         if pinned is not None:
             exp['INDEX-MAX'] = ('eq', pinned)           # assigned by the user between the writes
+        if c.get('nan_at') is not None:
+            exp = {'SPACING': ('absent',), 'DIRECTION': ('absent',), 'INDEX-MIN': ('any',), 'INDEX-MAX': ('any',)}
         for code, d in compare(exp, fo):
             cls = _classify(c, code)
             viol.append((f"C13:{tag}:{code}{cls}", f"{d} | {c} values={exp_vals[:5]}"))
         # the rows themselves must be those of the data passed to this write, in the declared representation
         hi = to if to is not None else len(exp_vals)
+        pats_ = list(to_pat(exp_dtype, exp_vals))
+        if c.get('nan_at') is not None:
+            pats_ = pat_nan
         want_rows = [int(p).to_bytes(DTYPE_SIZES[exp_dtype], 'big') * (c.get('first_width') or 1) + bytes([k])
-                     for k, p in list(enumerate(to_pat(exp_dtype, exp_vals)))[frm:hi]]
+                     for k, p in list(enumerate(pats_))[frm:hi]]
         got_rows = []
         for _, r, _s in lf.records:
             if not r.is_eflr and r.type == 0:
